@@ -5,7 +5,7 @@ from typing import Any, Dict, List, Optional, Tuple
 
 from hypothesis import strategies as st
 
-from vlib.mmgen import CP, Cls, Const, Inv, Opts, Spec, TRef, _desc, pystr
+from vlib.mmgen import CP, Cls, Const, Fn, Inv, Opts, Spec, TRef, _desc, pystr
 
 CMP_OPS = ["<", "<=", "==", "!=", ">=", ">"]
 LEN_OPS = ["<", "<=", "==", ">=", ">"]
@@ -79,6 +79,9 @@ class _Gen:
             int_consts = [c for c in spec.consts if c.kind == "int"]
             if int_consts:
                 forms.append(f"{e} {self.pick(CMP_OPS)} {self.pick(int_consts).name}")
+            tfns = [f for f in spec.fns if f.kind == "transpilable" and f.args[0][1].name == "int"]
+            if tfns and t.kind == "prim":
+                forms += [f"{self.pick(tfns).name}({e})"] * 2
             return self.pick(forms)
         if prim == "float":
             k = self.pick([0.0, 1.5, -2.25, 100.0])
@@ -97,6 +100,9 @@ class _Gen:
             sconsts = [c for c in spec.consts if c.kind == "str"]
             if sconsts:
                 forms.append(f"{e} == {self.pick(sconsts).name}")
+            tfns = [f for f in spec.fns if f.kind == "transpilable" and f.args[0][1].name == "str"]
+            if tfns and t.kind == "prim":
+                forms += [f"{self.pick(tfns).name}({e})"] * 2
             return self.pick(forms)
         if prim == "bytearray":
             k = self.draw(st.integers(0, 5))
@@ -234,6 +240,18 @@ def add_invariants(draw: Any, spec: Spec, opts: Opts, used_descs: set) -> None:
 
         schemainv.add_schema_invariants(draw, spec, opts, used_descs)
         return
+    # transpilable verification functions (single primitive argument, body from the atom grammar)
+    if opts.fns:
+        taken = {f.name for f in spec.fns}
+        for i in range(draw(st.integers(0, 2))):
+            prim = g.pick(["int", "str", "int"])
+            arg = g.pick(["value", "text", "that"])
+            body = g.atom(arg, TRef("prim", prim))
+            name = f"is_{g.pick(['fine', 'small', 'proper', 'good'])}_{prim}"
+            if body is None or name in taken:
+                continue
+            taken.add(name)
+            spec.fns.append(Fn(name, "transpilable", [(arg, TRef("prim", prim))], body=body))
     for c in spec.classes:
         props = spec.all_props(c.name)
         if not props:
